@@ -9,6 +9,9 @@ import RV.Base.Proto
     relex T            -> integer | decimal | double | boolean | none   W3C Turtle token grammar
     ptoken K S         -> some T | none     `_literal_n3(use_plain=True)` text for kind K (none: external float formatting)
     plain K S T1 N1 [T2 N2]  -> plain T | quoted     `_literal_label`'s choice among candidates (token, normalised)
+  N-Triples lines; terms as  i:IRI | b:LABEL | l:LEX:DT|*:LANG|*  (code points):
+    ntparse LINE       -> ok S P O | none        the W3C line grammar applied to a line rdflib wrote
+    ntrow S P O        -> code points of the line the writer model (`_nt_row`) produces
   Terms of graphs: i<n> (IRI; i0 = rdf:first, i1 = rdf:rest, i2 = rdf:nil), l<n> (literal), b<n> (blank node).
     vl H s p o s p o …       -> true | false | nofuel   `isValidList(H)` on the graph, nothing serialized yet
     pre h1,h2,… s p o …      -> ok | bad                decidable `Pre`: may exactly these blank nodes go unlabelled?
@@ -76,6 +79,20 @@ def showHTerm : HTerm → String
 
 def showRow (r : S × S × S) : String := showCps r.1 ++ " " ++ showCps r.2.1 ++ " " ++ showCps r.2.2
 
+def nterm? (w : String) : Option NTerm :=
+  match w.splitOn ":" with
+  | ["i", a] => (cps? a).map NTerm.iri
+  | ["b", a] => (cps? a).map NTerm.bnode
+  | ["l", a, d, l] => do
+    let x ← cps? a; let d ← optCps? d; let l ← optCps? l
+    pure (NTerm.lit x d l)
+  | _ => none
+
+def showNTerm : NTerm → String
+  | .iri i => "i:" ++ showCps i
+  | .bnode b => "b:" ++ showCps b
+  | .lit lex dt lang => "l:" ++ showCps lex ++ ":" ++ showOptCps dt ++ ":" ++ showOptCps lang
+
 def step (s : Unit) : List String → Unit × String
   | ["ntenc", a] => match cps? a with
     | some x => (s, showCps (ntQuoteEncode x)) | none => (s, "bad-op")
@@ -95,6 +112,13 @@ def step (s : Unit) : List String → Unit × String
           | some t => "plain " ++ showCps t
           | none => match plainChoice k x ps with | some t => "plain " ++ showCps t | none => "quoted")
     | _, _, _ => (s, "bad-op")
+  | ["ntparse", a] => match cps? a with
+    | some x => (s, match parseLine x with
+        | some (a, b, c) => "ok " ++ showNTerm a ++ " " ++ showNTerm b ++ " " ++ showNTerm c
+        | none => "none")
+    | none => (s, "bad-op")
+  | ["ntrow", a, b, c] => match nterm? a, nterm? b, nterm? c with
+    | some a, some b, some c => (s, showCps (ntRow a b c)) | _, _, _ => (s, "bad-op")
   | ["hext", "i", a] => match cps? a with
     | some x => (s, showRow (hextObj (.iri x))) | none => (s, "bad-op")
   | ["hext", "b", a] => match cps? a with
